@@ -12,5 +12,6 @@ INVARIANTS
   DetectedAsWritten
   HeadsDistinct
   BoundIsFinite
+  CarriesRequestedPrecision
   Emit
 CHECK_DEADLOCK FALSE
